@@ -58,6 +58,9 @@ Proof.
   - exists 0. repeat split; try lia.
 Qed.
 
+Lemma triple_eq (a b c a' b' c' : Z) : a = a' -> b = b' -> c = c' -> (a, b, c) = (a', b', c').
+Proof. intros; subst; reflexivity. Qed.
+
 (* ---------- model = diatonic specification, all a, o, sem ---------- *)
 Lemma tr_note_spec_lemma p1 n sem up i a o :
   0 <= i <= 6 -> 1 <= n <= 7 -> (p1 = true -> n = 1 /\ sem = 0) ->
@@ -70,7 +73,7 @@ Proof.
     assert (E2 : (7 * o + i) / 7 = o) by lia.
     destruct up; replace (7 * o + i + (1 - 1)) with (7 * o + i) by lia;
       replace (7 * o + i - (1 - 1)) with (7 * o + i) by lia; rewrite E1, E2;
-      unfold midi; cbv beta iota zeta; repeat f_equal; ring.
+      unfold midi; cbv beta iota zeta; apply triple_eq; lia.
   - destruct up; unfold tr_step.
     + destruct (up_fact_prop i n Hi Hn) as [w [Hw [Hb [Hi' [Hm Hr]]]]]. cbv zeta in *.
       set (i' := (i + (n - 1)) mod 7) in *.
@@ -78,14 +81,14 @@ Proof.
       assert (E2 : (7 * o + i + (n - 1)) / 7 = o + w) by lia.
       rewrite E1, E2, Hm, Hb. unfold midi. cbv beta iota zeta.
       generalize dependent (base_pc i'). generalize (base_pc i). intros b b' _.
-      destruct Hw as [-> | ->]; cbn [Z.eqb Pos.eqb]; repeat f_equal; lia.
+      destruct Hw as [-> | ->]; cbn [Z.eqb Pos.eqb]; apply triple_eq; lia.
     + destruct (down_fact_prop i n Hi Hn) as [w [Hw [Hb [Hi' [Hm Hr]]]]]. cbv zeta in *.
       set (i' := (i - (n - 1)) mod 7) in *.
       assert (E1 : (7 * o + i - (n - 1)) mod 7 = i') by lia.
       assert (E2 : (7 * o + i - (n - 1)) / 7 = o - w) by lia.
       rewrite E1, E2, Hm, Hb. unfold midi. cbv beta iota zeta.
       generalize dependent (base_pc i'). generalize (base_pc i). intros b b' _.
-      destruct Hw as [-> | ->]; cbn [Z.eqb Pos.eqb]; repeat f_equal; lia.
+      destruct Hw as [-> | ->]; cbn [Z.eqb Pos.eqb]; apply triple_eq; lia.
 Qed.
 
 (* consequences of the specification *)
@@ -124,7 +127,7 @@ Lemma pitch_determined i a o i' a' o' :
   (i, a, o) = (i', a', o').
 Proof.
   unfold diat, midi. intros Hi Hi' Hd Hm.
-  assert (i = i') by lia. assert (o = o') by lia. subst i' o'. repeat f_equal. lia.
+  assert (i = i') by lia. assert (o = o') by lia. subst i' o'. apply triple_eq; lia.
 Qed.
 
 Lemma up_down_lemma p1 n sem up i a o :
@@ -142,6 +145,10 @@ Proof.
 Qed.
 
 (* ---------- transpose_note (octave free) agrees ---------- *)
+Lemma mod12_cancel c c' a sem :
+  sem - ((c' + a) mod 12 - (c + a) mod 12) mod 12 + a = a + (sem - (c' - c) mod 12).
+Proof. lia. Qed.
+
 Lemma tn_note_agrees_lemma p1 n sem up i a i' a' :
   1 <= n -> (p1 = true -> n = 1 /\ sem = 0) ->
   tn_note n sem up i a = Some (i', a') ->
@@ -151,24 +158,21 @@ Proof.
   intros Hn1 Hp. unfold tn_note.
   destruct (up && (-3 <? a) && (a <? 3) && (n <? 8) && (0 <=? i) && (i <=? 6)) eqn:G; [|discriminate].
   repeat (apply andb_true_iff in G; destruct G as [G ?]).
-  set (j := (i + n - 1) mod 7).
-  set (b := sem - (step2pc j a - step2pc i a) mod 12 + a).
+  replace (i + n - 1) with (i + (n - 1)) by lia.
+  unfold step2pc. rewrite mod12_cancel.
+  set (j := (i + (n - 1)) mod 7).
+  set (b := a + (sem - (base_pc j - base_pc i) mod 12)).
   destruct ((-3 <? b) && (b <? 3)) eqn:B; [|discriminate].
   intros E. injection E as <- <-.
   apply andb_true_iff in B as [B1 B2].
   assert (Hi : 0 <= i <= 6) by lia. assert (Hn : 1 <= n <= 7) by lia.
   repeat split; try lia; try (destruct up; [reflexivity|discriminate]).
   intros o.
-  destruct (up_fact_prop i n Hi Hn) as [w [Hw [Hb [Hi' [Hm Hr]]]]]. cbv zeta in *.
-  replace (i + n - 1) with (i + (n - 1)) in j by lia.
-  assert (Eb : b = a + (sem - (base_pc j - base_pc i) mod 12)).
-  { unfold b, step2pc. fold j in Hm, Hi', Hr |- *.
-    generalize dependent (base_pc j). generalize (base_pc i). intros c c' _ _ _. lia. }
   destruct p1.
   - destruct (Hp eq_refl) as [-> ->]. exists o. unfold tr_note.
-    assert (j = i) by (unfold j; lia).
-    rewrite Eb. rewrite H4. replace (base_pc i - base_pc i) with 0 by lia. cbn. repeat f_equal. lia.
-  - unfold tr_note, tr_step. fold j. rewrite <- Eb.
+    assert (J : j = i) by (unfold j; lia).
+    unfold b. rewrite J. replace (base_pc i - base_pc i) with 0 by lia. cbn. apply triple_eq; lia.
+  - unfold tr_note, tr_step. fold j. fold b.
     eexists. reflexivity.
 Qed.
 
@@ -180,18 +184,16 @@ Proof.
   intros Hi Hn Ha. unfold tr_note, tr_step. cbv zeta.
   intros Ha'. unfold tn_note.
   replace (true && (-3 <? a) && (a <? 3) && (n <? 8) && (0 <=? i) && (i <=? 6)) with true by lia.
-  destruct (up_fact_prop i n Hi Hn) as [w [Hw [Hb [Hi' [Hm Hr]]]]]. cbv zeta in *.
   replace (i + n - 1) with (i + (n - 1)) by lia.
+  unfold step2pc. rewrite mod12_cancel.
   set (j := (i + (n - 1)) mod 7) in *.
-  assert (Eb : sem - (step2pc j a - step2pc i a) mod 12 + a = a + (sem - (base_pc j - base_pc i) mod 12)).
-  { unfold step2pc. generalize dependent (base_pc j). generalize (base_pc i). intros c c' _ _. lia. }
-  rewrite Eb.
-  replace ((-3 <? a + (sem - (base_pc j - base_pc i) mod 12)) && (a + (sem - (base_pc j - base_pc i) mod 12) <? 3)) with true by lia.
+  set (b := a + (sem - (base_pc j - base_pc i) mod 12)) in *.
+  replace ((-3 <? b) && (b <? 3)) with true by lia.
   reflexivity.
 Qed.
 
 (* ---------- interval classes ---------- *)
-Lemma interval_classes_39 : length interval_classes = 39%nat.
+Lemma interval_classes_39 : List.length interval_classes = 39%nat.
 Proof. vm_compute. reflexivity. Qed.
 
 Lemma interval_class_In n q sem : iv_semitones n q = Some sem -> In (n, q) interval_classes.
@@ -274,7 +276,7 @@ Proof.
     injection H as <-. constructor; [|apply IH; reflexivity].
     unfold transpose_elem in E. destruct e as [f [x|]]; cbn [fst snd] in *.
     + unfold tr_iv, opt_bind in E. destruct (iv_semitones n q) as [sem|] eqn:S; [|discriminate].
-      injection E as <-. split; [reflexivity|]. cbn [snd]. exists sem. split; reflexivity.
+      injection E as <-. split; [reflexivity|]. cbn [snd]. exists sem. split; [first [exact S | reflexivity] | reflexivity].
     + injection E as <-. split; reflexivity.
 Qed.
 
@@ -304,5 +306,5 @@ Proof.
 Qed.
 
 Lemma transpose_elems_length n q up l l' :
-  transpose_elems n q up l = Some l' -> length l' = length l.
-Proof. intros H. apply transpose_elems_moved in H. symmetry. eapply Forall2_length; eassumption. Qed.
+  transpose_elems n q up l = Some l' -> List.length l' = List.length l.
+Proof. intros H. apply transpose_elems_moved in H. induction H; cbn; congruence. Qed.
